@@ -78,7 +78,9 @@ ReqOpts ==
     {ResRule({"g2"}, {"r2"}, {"n1"}, {"get", "update"}), UrlRule({"/a"}, {"get"})},
     {ResRule({"g2"}, {"r2"}, {}, {Star})},
     {ResRule({"g2"}, {"r2"}, {}, {"get"}), UrlRule({"/a/b"}, {"get"})},
-    {ResRule({"g1"}, {Star}, {}, {})} }
+    {ResRule({"g1"}, {Star}, {}, {})},
+    \* a resource rule without any API group: it denotes nothing (the validator has nothing to check, the role must grant nothing)
+    {ResRule({}, {"r2"}, {}, {"get", "update"})} }
 
 NoRev == [label |-> "", src |-> Src("same"), refs |-> {}]
 NoXrd == [group |-> "", plural |-> "", claim |-> ""]
